@@ -277,6 +277,9 @@ func checkC13(a *checkArgs, r *Result) error {
 		nlazy = 400
 	}
 	lazyTie(r, dp, rand.New(rand.NewSource(a.seed+13)), nlazy)
+	if err := lazy2Tie(r, dp, rand.New(rand.NewSource(a.seed+14)), nlazy); err != nil {
+		return err
+	}
 	return nil
 }
 
